@@ -25,7 +25,7 @@ func init() {
 			"R2.3 the decision after the loop tests forbids before permits and returns Deny/Allow/Deny with the matching reasons; " +
 			"R2.4 eval.PolicyToNode conjoins every non-All scope clause and every condition (unless-bodies negated) with And only; " +
 			"R2.5 scope lowering tables (eval.scopeToNode, parser.scopeToNode) map each scope kind to the prescribed operator. " +
-			"R2.6 the lists a decision loop appends to are born empty inside the call that returns them (local cells whose every store is an own append or an empty list). " +
+			"R2.6 the lists a decision loop appends to are born empty inside the call that returns them (local cells whose every store is an own append or an empty list); every returned Diagnostic is the object the errors were appended to (or was given them); a write of an existing Policy's syntax tree is paired with a write of eval.Compile of that tree on the same object. " +
 			"Not decided: that each compiled evaluator computes the right boolean (C01/C04).",
 		Run: runC02,
 	})
